@@ -1,9 +1,10 @@
 """Property -> rules.  Each property's check runs the listed rules; the texts go into the evidence."""
-from .rules import tab, enc
+from .rules import tab, enc, cas
 
 RULESETS = {}
 RULESETS.update(tab.RULES)
 RULESETS.update(enc.RULES)
+RULESETS.update(cas.RULES)
 
 PROPS = {}
 
@@ -21,3 +22,6 @@ BASE_ASSUMPTIONS = [
 
 prop("C01", ["TAB-1", "TAB-3", "TAB-4", "ENC-1", "ENC-2", "ENC-3", "ENC-4", "ENC-6"], "x", "y")
 NOT_APPLICABLE = {}
+
+prop("C14", ["CAS-1", "CAS-4"], "x", "y")
+prop("C06", ["CAS-6"], "x", "y")
